@@ -74,8 +74,10 @@ func checkInterface(ifi *net.Interface, addrFunc func() ([]net.Addr, error)) err
 			continue
 		}
 
+		// net represents IPv4 addresses in IPv4-mapped IPv6 form, so make sure
+		// an IPv4 link-local address (169.254.0.0/16) does not count.
 		ip, ok := netip.AddrFromSlice(a.IP)
-		if ok && ip.Is6() && ip.IsLinkLocalUnicast() {
+		if ok && ip.Is6() && !ip.Is4In6() && ip.IsLinkLocalUnicast() {
 			foundLL = true
 			break
 		}
